@@ -80,6 +80,7 @@ func (f *frame) call(t *ssa.Call) {
 			}
 			x.note("ASSUMED (not proved) frame of opaque %s: modifies only %s", funcDisplayName(callee), fc.SigText)
 			after := f.cur.heap
+			x.havocked = nil
 			for _, mt := range targets {
 				after = x.havocTarget(after, mt)
 			}
@@ -103,6 +104,12 @@ func (f *frame) call(t *ssa.Call) {
 			x.S.Assert(IntLt(nx, IntConst(1<<39)))
 			x.S.Assert(IntLe(f.cur.heap.next, nx))
 			f.cur.heap = x.H.WithNext(after, nx)
+			for _, hv := range x.havocked {
+				for _, fact := range x.wfFacts(hv.Typ, hv.T, nx) {
+					f.assume(fact)
+				}
+			}
+			x.havocked = nil
 			f.reassumeTypeInvs(args)
 			res := f.setFreshResult(t)
 			if len(fc.Assumes) > 0 {
@@ -500,6 +507,7 @@ func (f *frame) callByContract(t *ssa.Call, callee *ssa.Function, fc *FuncContra
 		if err != nil {
 			abort("modifies of %s: %v", cname, err)
 		}
+		x.havocked = nil
 		for _, mt := range targets {
 			after = x.havocTarget(after, mt)
 		}
@@ -507,6 +515,14 @@ func (f *frame) callByContract(t *ssa.Call, callee *ssa.Function, fc *FuncContra
 		x.S.Assert(IntLt(nx, IntConst(1<<39)))
 		x.S.Assert(IntLe(before.next, nx))
 		after = x.H.WithNext(after, nx)
+		// whatever the callee stored into the modified locations refers to objects that exist AFTER the call
+		// (the callee may have allocated them): well-formedness against the new allocation counter
+		for _, hv := range x.havocked {
+			for _, fact := range x.wfFacts(hv.Typ, hv.T, nx) {
+				f.assume(fact)
+			}
+		}
+		x.havocked = nil
 	}
 	f.cur.heap = after
 	res := f.setFreshResult(t)
@@ -548,12 +564,7 @@ func (x *Exec) havocTarget(h *HeapState, mt modTarget) *HeapState {
 		return h
 	}
 	v := x.freshVal("hv", mt.loc.T)
-	// whatever the callee stored there refers to objects that exist by then (fresh symbols: asserting it globally is harmless)
-	if h.next.S != "" {
-		for _, fact := range x.wfFacts(mt.loc.T, v.T, h.next) {
-			x.S.Assert(fact)
-		}
-	}
+	x.havocked = append(x.havocked, v)
 	return x.H.StoreLoc(h, mt.loc, v.T)
 }
 
